@@ -243,13 +243,15 @@ impl Universe {
                 // process names that differ only in a character outside [A-Za-z0-9._-]
                 ee("process:side kiq", "override", b"E2_S", b"space"),
                 ee("process:side:kiq", "override", b"E2_S", b"colon"),
+                // ... and a dotted one next to its own stem
+                ee("process:web.worker", "override", b"E2_D", b"dotted"),
             ],
         );
-        u.envs.insert("e3".into(), vec![ee("process:web", "prepend", b"ONLY_PROC", b"p")]);
+        u.envs.insert("e3".into(), vec![ee("process:web.v2", "prepend", b"ONLY_PROC", b"p")]);
         for (t, b) in [("s1", &b"{\"sbom\":\"s1\"}"[..]), ("s2", &b"{\"sbom\":\"s2\", \"x\": [1,2]}\n"[..]), ("s3", &b""[..])] {
             u.sboms.insert(t.into(), b.to_vec());
         }
-        for (t, n, b) in [("f1", "f1.txt", &b"file one\n"[..]), ("f2", "bin/f2 tool", &b"\x00\x01binary"[..]), ("f3", ".hidden", &b""[..])] {
+        for (t, n, b) in [("f1", "env.d/f1.txt", &b"file one\n"[..]), ("f2", "bin/f2 tool", &b"\x00\x01binary"[..]), ("f3", ".hidden", &b""[..])] {
             u.files.insert(t.into(), (n.into(), b.to_vec()));
         }
         for (t, b) in [("p1", &b"#!/bin/sh\necho p1\n"[..]), ("p2", &b"#!/bin/sh\necho p2 >&3\n"[..]), ("p3", &b"\x7fELF"[..])] {
